@@ -38,7 +38,8 @@ func Register() {
 			"svc.repeated_total_reached", "svc.context_paused", "svc.context_resumed", "svc.context_killed",
 			"svc.kill_with_active_requests", "svc.context_updated", "svc.pause_during_batch",
 			"svc.stranger_ctx_op", "svc.auto_paused_no_funds", "svc.batch_without_requests",
-			"C13.service_queue_checks"},
+			"C13.service_queue_checks", "C08.callback_checks", "svc.callback_last-answer", "svc.callback_expiry",
+			"svc.callback_threshold_met", "svc.callback_below_threshold"},
 		Rule: "a run is non-trivial when at least one response verdict (accepted or rejected) was compared with the request model, more than one batch start was judged against the schedule rules and active markers were compared with the model after a block; distinct = different fingerprint of the executed (operation kind, outcome class) sequence",
 	})
 }
